@@ -632,3 +632,63 @@ def rule_context_reduction_certificate(ctx: Ctx, rule: str = "context-reduction-
             ctx.ok(rule, key, construct + " (%d returning cases of %d)" % (returned, total))
     ctx.extra["reduction_sound_for_arbitrary_rows"] = reduction_sound_for_arbitrary_rows(prog)
     ctx.floor("context-reduction returning sign patterns", n_ret, 8)
+
+
+# ---------------------------------------------------------------------------
+# Tactic 3 (change of variables before tactic 1)
+# ---------------------------------------------------------------------------
+def rule_tactic3_change_of_variables(ctx: Ctx, rule: str = "tactic3-substitution") -> None:
+    """C01/C02/C04: tactic 3 replaces the eliminated part  a_x x + a_y y  of the term by one auxiliary variable `_`
+    and rewrites the context with  x := (_ - a_y y) / a_x ; whatever tactic 1 then derives is only valid for the
+    original context if that rewriting is exact.  Decided on symbolic coefficients with tactic 1 stubbed out: putting
+    `_ = a_x x + a_y y` back into every rewritten context row must give the original row, the rewritten term must
+    be  rest + 1*_ <= c , and the variables handed on for elimination are the old ones with x replaced by `_`."""
+    prog = ctx.prog
+    key = "PolyhedralTermList._tactic_3"
+    fi = prog.func(key)
+    x, y, z, w, aux = Key("x"), Key("y"), Key("z"), Key("w"), Key("_")
+
+    def scenario(refine: bool):
+        seen = {}
+
+        def stub(ta_, pos, kw):
+            seen["args"] = pos
+            return TupV([pos[0], num(1)])
+
+        ta = TermAlg(prog, stubs={"PolyhedralTermList._tactic_1": stub})
+        T = ta.term([x, y, z], "a")
+        R1 = ta.term([x, y, w], "b")
+        R2 = ta.term([y, w], "e")
+        R3 = ta.term([x], "g")
+        context = ta.construct("PolyhedralTermList", [ListV([R1, R2, R3])], {})
+        ta.call(fi, [T, context, ListV([x, y]), refine])
+        if "args" not in seen:
+            return "tactic 1 is not called"
+        new_term, new_context, new_elims = seen["args"][0], seen["args"][1], seen["args"][2]
+        p = _cmp_term(new_term, {"z": sym("a_z"), "_": num(1)}, sym("a_c"))
+        if p:
+            return "the rewritten term is not  a_z z + _ <= a_c : " + p
+        rows = new_context.f["terms"].items if isinstance(new_context, Rec) else []
+        if len(rows) != 3:
+            return "the rewritten context has %d rows for 3" % len(rows)
+        for name, orig, new in (("b", R1, rows[0]), ("e", R2, rows[1]), ("g", R3, rows[2])):
+            nc = coefs(new)
+            k_aux = nc.get("_", num(0))
+            back = {n_: v_ for n_, v_ in nc.items() if n_ != "_"}
+            back["x"] = back.get("x", num(0)) + k_aux * sym("a_x")
+            back["y"] = back.get("y", num(0)) + k_aux * sym("a_y")
+            oc = coefs(orig)
+            for n_ in sorted(set(back) | set(oc)):
+                if not _eq(back.get(n_, num(0)), oc.get(n_, num(0))):
+                    return "context row %s: with _ = a_x x + a_y y put back, the coefficient of %s is %s, originally %s" % (name, n_, back.get(n_, num(0)).show(), oc.get(n_, num(0)).show())
+            if not _eq(new.f["constant"], orig.f["constant"]):
+                return "context row %s: the bound changes from %s to %s" % (name, orig.f["constant"].show(), new.f["constant"].show())
+        el = sorted(k_.name for k_ in new_elims.items) if isinstance(new_elims, ListV) else None
+        if el != ["_", "y"]:
+            return "the variables handed to tactic 1 are %s, expected the eliminated ones with x replaced by _" % el
+        if seen["args"][3] is not refine:
+            return "the direction handed to tactic 1 is %r" % (seen["args"][3],)
+        return None
+
+    for refine in (True, False):
+        _run(ctx, rule, key, "_tactic_3 (%s): the change of variables handed to tactic 1 is exact" % ("refine" if refine else "relax"), lambda refine=refine: scenario(refine))
